@@ -53,6 +53,7 @@ pub fn gen(rng: &mut Rng, tiny: bool) -> KCfg {
             3 => sc.mw[0][0] = V_DONE,
             _ => {}
         }
+        sc.sel = rng.below(3) as u8;
         scripts.push(sc);
     }
     let mx = if tiny { 3 } else { 25 };
@@ -117,6 +118,23 @@ pub fn execute(c: &KCfg, seed: u64) -> W {
         for s in 0..2u8 {
             let arc: Arc<dyn Subscriber<St, Act> + Send + Sync> = sub.clone();
             keep.push((id, w.add_sub_arc(s, id, arc, false)));
+        }
+    }
+    // one SelectorSubscriber instance registered on both stores: it is notified from two reducer threads
+    let shared_sel_id = {
+        let mut subs = w.subs.lock().unwrap();
+        let id = subs.len() as u32;
+        subs.push(SubInfo { id, store: 255, kind: SK_SELECTOR, cap: 0, policy: 0, twin: None, at_build: true, shared: true });
+        id
+    };
+    {
+        let cx = w.ctx.clone();
+        let sel: Arc<dyn Subscriber<St, Act> + Send + Sync> = Arc::new(rs_store::SelectorSubscriber::new(SelSelector, move |val: u8, a: Act| {
+            cx.ev(K::SelCb, id_store(a.id), a.id, shared_sel_id, val as u64, 0, 0);
+            cx.perturb();
+        }));
+        for s in 0..2u8 {
+            keep.push((shared_sel_id, rs_store::StoreImpl::add_subscriber(&w.stores[s as usize], sel.clone())));
         }
     }
     if let Some(from) = c.cross_dispatch {
@@ -322,11 +340,34 @@ pub fn c19(h: &Hist, w: &W, c: &KCfg, v: &mut Verdicts) {
             v.nontrivial.insert("C19");
         }
     }
+    shared_selector(h, v, "C19");
     // shared subscriber released once per store
-    for si in h.subs.iter().filter(|si| si.shared) {
+    for si in h.subs.iter().filter(|si| si.shared && si.kind == SK_DIRECT) {
         let n = h.evs.iter().filter(|e| e.k == K::SUnsub && e.idx == si.id).count();
         if n != 2 {
             v.fail("C19", format!("the subscriber object shared by both stores received on_unsubscribe {} times, expected once per store", n));
+        }
+    }
+}
+
+/// The SelectorSubscriber instance shared by both stores sees one serialized notification stream:
+/// whatever the interleaving, it never delivers the same value twice in a row.
+pub fn shared_selector(h: &Hist, v: &mut Verdicts, prop: &'static str) {
+    for si in h.subs.iter().filter(|si| si.shared && si.kind == SK_SELECTOR) {
+        let cbs: Vec<&Ev> = h.evs.iter().filter(|e| e.k == K::SelCb && e.idx == si.id).collect();
+        for w2 in cbs.windows(2) {
+            if w2[0].x == w2[1].x {
+                v.fail(prop, format!("the selector subscriber shared by two stores delivered value {} twice in a row (for {} at seq {} and {} at seq {})", w2[1].x, id_str(w2[0].a), w2[0].seq, id_str(w2[1].a), w2[1].seq));
+                break;
+            }
+        }
+        v.count(&format!("{}.shared_selector_callbacks", prop.to_lowercase()), cbs.len() as u64);
+        if prop == "C16" {
+            v.evaluated.insert("C16");
+            let vals: Vec<u64> = cbs.iter().map(|e| e.x).collect();
+            if vals.len() >= 3 {
+                v.nontrivial.insert("C16");
+            }
         }
     }
 }
@@ -338,5 +379,6 @@ pub fn run(seed: u64, tiny: bool, _focus: &str) -> Outcome {
     let h = Hist::from_world(&w);
     let mut v = Verdicts::default();
     c19(&h, &w, &c, &mut v);
+    shared_selector(&h, &mut v, "C16");
     Outcome::new(describe(&c), h, v)
 }
